@@ -13,9 +13,10 @@
 (***************************************************************************)
 EXTENDS Integers, Sequences, FiniteSets, TLC
 
-Protos == {"http", "twirp", "grpc", "grpcweb", "grpcwebtext", "ws"}
+\* ("grpcsock" is gRPC as a real grpc-go client sees it through larking.NewServer on a socket)
+Protos == {"http", "twirp", "grpc", "grpcweb", "grpcwebtext", "ws", "grpcsock"}
 Shapes == {"unary", "cstream", "sstream", "bidi"}
-IsGrpc(p) == p \in {"grpc", "grpcweb", "grpcwebtext"}
+IsGrpc(p) == p \in {"grpc", "grpcweb", "grpcwebtext", "grpcsock"}
 ClientStreams(sh) == sh \in {"cstream", "bidi"}
 ServerStreams(sh) == sh \in {"sstream", "bidi"}
 CarriesTrailers(p) == IsGrpc(p)
